@@ -2,32 +2,33 @@
    mint ids; and for the literal counting checks: the queried ids cover the existing tokens). *)
 From Coq Require Import Permutation.
 From SC Require Import Lib.Prelude Lib.Int Lib.Host Model.Nft Run.NftCommon Proofs.NftMaps Proofs.NftFrame
-  Proofs.NftInv Proofs.NftCons Proofs.NftOwn Proofs.NftSim Proofs.NftCard Proofs.NftEnum Run.C10 Proofs.C10Card
+  Proofs.NftInv Proofs.NftCons Proofs.NftOwn Proofs.NftSim Proofs.NftScope Proofs.NftCard Proofs.NftEnum Run.C10 Proofs.C10Card
   Proofs.C10Sim Proofs.C10Live Model.NftBits Model.NftBitsRun Proofs.NftBits Proofs.NftBitsRun.
 Local Open Scope N_scope.
 
-(* ---------- well-formedness of the queries (a boolean the harness inputs satisfy) ---------- *)
-Definition covers (fl : flavour) (s : state) (ids : list N) : bool :=
+(* ---------- the hypothesis of the acceptance theorem: the QUERIES are well formed ----------
+   a boolean over calls and query shapes, evaluated along the run of the model and of the reference; it is
+   exactly the observation test the monitor applies ([c10_shape_ok]) plus the lengths of the enumeration
+   queries (two indices beyond the end).  Once a call leaves the quantifier (OutOfScope) nothing is asked. *)
+Definition enum_shape (fl : flavour) (s : state) (sh : obs) : bool :=
   match fl with
-  | FCons => forallb (fun i => memN i ids) (seqN 0 (N.to_nat (next_id s)))
-  | _ => forallb (fun kv : N * addr => memN (fst kv) ids) (owner s)
+  | FEnum =>
+      (N.of_nat (length (o_glob sh)) =? total s + 2)
+      && list_eqb N.eqb (map fst (o_otok sh)) (map fst (o_bal sh))
+      && forallb (fun p : addr * list (option N) => N.of_nat (length (snd p)) =? balance s (fst p) + 2) (o_otok sh)
+  | _ => true
   end.
-Definition wf_shape (fl : flavour) (full : bool) (s : state) (sh : obs) : bool :=
-  (if full then nodupb (map fst (o_owner sh)) && covers fl s (map fst (o_owner sh)) else true)
-  && match fl with
-     | FEnum =>
-         (N.of_nat (length (o_glob sh)) =? total s + 2)
-         && list_eqb N.eqb (map fst (o_otok sh)) (map fst (o_bal sh))
-         && forallb (fun p : addr * list (option N) => N.of_nat (length (snd p)) =? balance s (fst p) + 2) (o_otok sh)
-     | _ => true
-     end.
-Fixpoint wf_run (fl : flavour) (c : cfg) (full : bool) (s : state) (l : list (call * obs)) : bool :=
+Fixpoint wf_run (fl : flavour) (c : cfg) (full : bool) (s : state) (g : ghost) (l : list (call * obs)) : bool :=
   match l with
   | [] => true
   | (cl, sh) :: r =>
-      fresh_ok fl c s cl
-      && wf_shape fl full (fst (step fl c s cl)) sh
-      && wf_run fl c full (fst (step fl c s cl)) r
+      let s' := fst (step fl c s cl) in
+      let o := snd (step fl c s cl) in
+      let g' := ghost_step g cl o in
+      match mint_scope fl g cl o with
+      | OutOfScope => true
+      | _ => c10_shape_ok fl full g' cl o (model_obs fl c s' sh) && enum_shape fl s' sh && wf_run fl c full s' g' r
+      end
   end.
 
 (* ---------- small list facts ---------- *)
@@ -65,24 +66,78 @@ Proof.
   unfold exists_in at 1. destruct (R k); cbn [is_some length]; rewrite IH; reflexivity.
 Qed.
 
-(* the queried ids cover every existing token *)
-Lemma covers_spec fl (c : cfg) s g ids : OwnInv fl s g -> covers fl s ids = true ->
+(* ---------- what the shape test gives ---------- *)
+Lemma incr_from_lt lo l : incr_from lo l = true -> forall x, In x l -> lo < x.
+Proof.
+  revert lo. induction l as [|a r IH]; intros lo H x Hx; [destruct Hx|]. cbn [incr_from] in H.
+  apply andb_true_iff in H. destruct H as [H1 H2]. apply N.ltb_lt in H1.
+  destruct Hx as [<-|Hx]; [exact H1 | specialize (IH a H2 x Hx); lia].
+Qed.
+Lemma incr_from_NoDup lo l : incr_from lo l = true -> NoDup l.
+Proof.
+  revert lo. induction l as [|a r IH]; intros lo H; constructor; cbn [incr_from] in H;
+    apply andb_true_iff in H; destruct H as [_ H2].
+  - intros Hin. pose proof (incr_from_lt a r H2 a Hin). lia.
+  - exact (IH a H2).
+Qed.
+Lemma strictly_incr_NoDup l : strictly_incr l = true -> NoDup l.
+Proof.
+  destruct l as [|a r]; cbn [strictly_incr]; intros H; constructor.
+  - intros Hin. pose proof (incr_from_lt a r H a Hin). lia.
+  - exact (incr_from_NoDup a r H).
+Qed.
+Lemma covers_from_In l : forall lo n, covers_from l lo n = true -> forall x, lo <= x < lo + N.of_nat n -> In x l.
+Proof.
+  induction l as [|a r IH]; intros lo n H x Hx.
+  - destruct n; cbn in H; [lia | discriminate].
+  - destruct n as [|k]; [lia|]. cbn [covers_from] in H.
+    destruct (a <? lo) eqn:E1; [right; apply (IH lo (S k) H x Hx)|].
+    destruct (a =? lo) eqn:E2; [|discriminate]. apply N.eqb_eq in E2. subst a.
+    destruct (N.eq_dec x lo) as [->|Hne]; [left; reflexivity|]. right. apply (IH (lo + 1) k H). lia.
+Qed.
+
+(* ranges of the reference lie below its counter *)
+Definition RangeInv (g : ghost) : Prop := forall lo hi a, In (LRange lo hi a) (g_own g) -> hi < g_next g.
+Lemma range_init now0 : RangeInv (ghost0 now0).
+Proof. intros lo hi a []. Qed.
+Lemma range_step fl g cl o : RangeInv g -> mint_scope fl g cl o = InScope -> RangeInv (ghost_step g cl o).
+Proof.
+  intros H Hs. destruct o as [r|]; [|exact H].
+  destruct cl; cbn [ghost_step]; try exact H; cbn [mint_scope] in Hs.
+  - destruct fl; try discriminate; (destruct r as [id|]; [|discriminate]);
+      (destruct (id <? g_next g) eqn:E; [discriminate|]); apply N.ltb_ge in E;
+      intros lo hi a [X|X]; try discriminate X; cbn [g_next]; specialize (H lo hi a X); lia.
+  - intros lo hi a [X|X]; [discriminate X | exact (H lo hi a X)].
+  - destruct fl; try discriminate. destruct r as [last|]; [|discriminate].
+    destruct ((1 <=? amount) && (amount <=? last + 1) && (g_next g <=? last + 1 - amount)) eqn:E; [|discriminate].
+    apply andb_true_iff in E. destruct E as [E E3]. apply andb_true_iff in E. destruct E as [E1 E2].
+    apply N.leb_le in E1, E2, E3.
+    intros lo hi a [X|X]; cbn [g_next]; [inversion X; subst; lia | specialize (H lo hi a X); lia].
+  - intros lo hi a [X|X]; [discriminate X | exact (H lo hi a X)].
+  - intros lo hi a [X|X]; [discriminate X | exact (H lo hi a X)].
+  - intros lo hi a [X|X]; [discriminate X | exact (H lo hi a X)].
+  - intros lo hi a [X|X]; [discriminate X | exact (H lo hi a X)].
+Qed.
+Lemma rget_dom r i : rget r i <> None ->
+  In i (point_ids r) \/ exists lo hi a, In (LRange lo hi a) r /\ lo <= i <= hi.
+Proof.
+  induction r as [|[j o|lo hi a] r IH]; cbn [rget point_ids]; intros H; [contradiction | |].
+  - destruct (i =? j) eqn:E; [apply N.eqb_eq in E; left; left; auto|].
+    destruct (IH H) as [X|(lo&hi&a&X&Y)]; [left; right; exact X | right; exists lo, hi, a; split; [right; exact X | exact Y]].
+  - destruct ((lo <=? i) && (i <=? hi)) eqn:E.
+    + apply andb_true_iff in E. destruct E as [E1 E2]. apply N.leb_le in E1, E2.
+      right. exists lo, hi, a. split; [left; reflexivity | lia].
+    + destruct (IH H) as [X|(lo'&hi'&a'&X&Y)]; [left; exact X | right; exists lo', hi', a'; split; [right; exact X | exact Y]].
+Qed.
+
+(* in `full` mode the queried ids cover every existing token *)
+Lemma full_covers g ids : RangeInv g ->
+  covers_from ids 0 (N.to_nat (g_next g + 3)) = true -> forallb (fun i => memN i ids) (point_ids (g_own g)) = true ->
   forall i, rget (g_own g) i <> None -> In i ids.
 Proof.
-  intros Ho Hc i Hi. rewrite <- (own_of fl c s g Ho) in Hi.
-  assert (Hplain : forallb (fun kv : N * addr => memN (fst kv) ids) (owner s) = true ->
-                   aget N.eqb i (owner s) <> None -> In i ids).
-  { intros Hf Hn. destruct (aget N.eqb i (owner s)) as [v|] eqn:E; [|contradiction].
-    clear Hn. rewrite forallb_forall in Hf.
-    induction (owner s) as [|[k' v'] r IH]; cbn [aget] in E; [discriminate|].
-    destruct (i =? k') eqn:E2.
-    - apply N.eqb_eq in E2. subst. apply memN_In. apply (Hf (k', v')). left. reflexivity.
-    - apply IH; [intros x Hx; apply Hf; right; exact Hx | exact E]. }
-  destruct fl; cbn [covers owner_of] in *; try (apply Hplain; assumption).
-  cbn [OwnInv] in Ho. rewrite (cons_owner_of_cown c s i (proj1 Ho)) in Hi.
-  assert (Hlt : i < next_id s).
-  { unfold cown in Hi. destruct (i <? next_id s) eqn:E; [apply N.ltb_lt in E; exact E | exfalso; apply Hi; reflexivity]. }
-  rewrite forallb_forall in Hc. apply memN_In. apply Hc. apply seqN_In. rewrite N2Nat.id. lia.
+  intros Hr Hc Hp i Hi. destruct (rget_dom _ _ Hi) as [X|(lo&hi&a&X&Y)].
+  - rewrite forallb_forall in Hp. apply memN_In. apply Hp. exact X.
+  - specialize (Hr lo hi a X). apply (covers_from_In ids 0 _ Hc). lia.
 Qed.
 
 (* ---------- index-list answers of the model pass enum_list_ok ---------- *)
@@ -145,11 +200,12 @@ Proof.
 Qed.
 
 Lemma c10_obs_model fl c full s g sh :
-  Sim10 fl s g -> wf_shape fl full s sh = true -> c10_obs_ok fl full g (model_obs fl c s sh) = true.
+  Sim10 fl s g ->
+  (full = true -> NoDup (map fst (o_owner sh)) /\ forall i, rget (g_own g) i <> None -> In i (map fst (o_owner sh))) ->
+  enum_shape fl s sh = true -> c10_obs_ok fl full g (model_obs fl c s sh) = true.
 Proof.
-  intros (Hs&Hcard&Hen&Hto) Hwf. pose proof Hs as [Hc Ho]. pose proof (own_of fl c s g Ho) as Hown.
+  intros (Hs&Hcard&Hen&Hto) Hfull Hwf2. pose proof Hs as [Hc Ho]. pose proof (own_of fl c s g Ho) as Hown.
   destruct Hc as ((Hn&Hx)&Hb&_&_).
-  apply andb_true_iff in Hwf. destruct Hwf as [Hwf1 Hwf2].
   unfold c10_obs_ok, model_obs. cbn [o_next o_owner o_bal o_total o_glob o_otok].
   repeat (apply andb_true_iff; split).
   - apply N.eqb_eq. exact Hx.
@@ -157,31 +213,30 @@ Proof.
     rewrite Hown. apply oaddr_eqb_refl'.
   - apply forallb_forall. intros x Hin. apply in_map_iff in Hin. destruct Hin as (p&<-&_). cbn [fst snd].
     apply N.eqb_eq. apply Hb.
-  - destruct full; [|reflexivity]. apply andb_true_iff in Hwf1. destruct Hwf1 as [Hnd Hcov].
-    rewrite map_fst_keyed, Hnd. cbn [andb].
+  - destruct full; [|reflexivity]. destruct (Hfull eq_refl) as [Hnd Hcov].
     apply forallb_forall. intros x Hin. apply in_map_iff in Hin. destruct Hin as (p&<-&_). cbn [fst snd].
     apply N.eqb_eq. rewrite Hb.
     rewrite (count_owned_keyed (owner_of fl c s) (fst p) (o_owner sh)).
     destruct Hcard as (dom&Hnd'&Hcv&Hcnt&_). rewrite Hcnt. f_equal.
     rewrite (cnt_in_ext (owned_by (owner_of fl c s) (fst p)) (owned_by (rget (g_own g)) (fst p))) by (intros i _; unfold owned_by; rewrite Hown; reflexivity).
-    apply cnt_in_cover; [exact Hnd' | apply nodupb_NoDup; exact Hnd | |].
+    apply cnt_in_cover; [exact Hnd' | exact Hnd | |].
     + intros i Hi. apply Hcv. unfold owned_by in Hi. apply oaddr_eqb_eq in Hi. rewrite Hi. discriminate.
-    + intros i Hi. apply (covers_spec fl c s g _ Ho Hcov). unfold owned_by in Hi. apply oaddr_eqb_eq in Hi. rewrite Hi. discriminate.
+    + intros i Hi. apply Hcov. unfold owned_by in Hi. apply oaddr_eqb_eq in Hi. rewrite Hi. discriminate.
   - destruct fl; try reflexivity.
-    destruct (Hen eq_refl) as [[HO HG] Htot].
+    destruct (Hen eq_refl) as [[HO HG] Htot]. cbn [enum_shape] in Hwf2.
     apply andb_true_iff in Hwf2. destruct Hwf2 as [Hwf2 Hw3]. apply andb_true_iff in Hwf2. destruct Hwf2 as [Hw1 Hw2].
     apply N.eqb_eq in Hw1. apply list_eqb_Neqb_eq in Hw2.
     unfold enum_ok. cbn [o_total o_owner o_glob o_otok o_bal].
     repeat (apply andb_true_iff; split).
     + apply N.eqb_eq. exact Htot.
-    + destruct full; [|reflexivity]. apply andb_true_iff in Hwf1. destruct Hwf1 as [Hnd Hcov].
+    + destruct full; [|reflexivity]. destruct (Hfull eq_refl) as [Hnd Hcov].
       apply N.eqb_eq. rewrite Htot.
       rewrite (count_existing_keyed (owner_of FEnum c s) (o_owner sh)).
       destruct Hcard as (dom&Hnd'&Hcv&_&Hsup&_). rewrite Hsup. f_equal.
       rewrite (cnt_in_ext (exists_in (owner_of FEnum c s)) (exists_in (rget (g_own g)))) by (intros i _; unfold exists_in; rewrite Hown; reflexivity).
-      apply cnt_in_cover; [exact Hnd' | apply nodupb_NoDup; exact Hnd | |].
+      apply cnt_in_cover; [exact Hnd' | exact Hnd | |].
       * intros i Hi. apply Hcv. unfold exists_in in Hi. destruct (rget (g_own g) i); [discriminate | discriminate].
-      * intros i Hi. apply (covers_spec FEnum c s g _ Ho Hcov). unfold exists_in in Hi. destruct (rget (g_own g) i); [discriminate | discriminate].
+      * intros i Hi. apply Hcov. unfold exists_in in Hi. destruct (rget (g_own g) i); [discriminate | discriminate].
     + apply (enum_list_model (gget s) (gidx s) (total s) (fun id => rget (g_own g) id <> None)); [exact HG | | exact Hw1].
       intros id Hid. destruct (rget (g_own g) id); [reflexivity | contradiction].
     + rewrite !map_map. cbn [fst].
@@ -229,19 +284,44 @@ Proof.
     destruct (owner_burn_progress fl c s g [from] from id Hs (has_auth_self from) H0) as [s' X]. rewrite X in He. discriminate.
 Qed.
 
-Lemma mon_model_steps fl c full l : forall s g i,
-  Sim10 fl s g -> wf_run fl c full s l = true -> mon_from fl c full g (model_steps fl c s l) i = 0.
+(* the shape test on a model observation looks only at the query shape *)
+Lemma shape_full fl g cl o ob : RangeInv g -> c10_shape_ok fl true g cl o ob = true ->
+  NoDup (map fst (o_owner ob)) /\ forall i, rget (g_own g) i <> None -> In i (map fst (o_owner ob)).
 Proof.
-  induction l as [|[cl sh] r IH]; intros s g i Hs Hwf; cbn [model_steps mon_from]; [reflexivity|].
-  cbn [wf_run] in Hwf. apply andb_true_iff in Hwf. destruct Hwf as [Hwf Hwr].
-  apply andb_true_iff in Hwf. destruct Hwf as [Hfr Hsh].
+  intros Hr H. unfold c10_shape_ok in H.
+  apply andb_true_iff in H. destruct H as [H _]. apply andb_true_iff in H. destruct H as [H H0].
+  apply andb_true_iff in H. destruct H as [H _]. apply andb_true_iff in H. destruct H as [H _].
+  apply andb_true_iff in H0. destruct H0 as [Hc Hp].
+  split; [apply strictly_incr_NoDup; exact H | apply full_covers; assumption].
+Qed.
+
+Lemma mon_model_steps fl c full l : forall s g i,
+  Sim10 fl s g -> RangeInv g -> wf_run fl c full s g l = true ->
+  mon_from false fl c full g (model_steps fl c s l) i = 0.
+Proof.
+  induction l as [|[cl sh] r IH]; intros s g i Hs Hr Hwf; cbn [model_steps mon_from]; [reflexivity|].
+  cbn [wf_run] in Hwf.
   destruct (step_cases fl c s cl) as [(s'&rr&He&Est)|[He Est]]; rewrite Est in *; cbn [fst snd] in *;
-    cbn [mon_from c10_step_ok fst snd].
-  - pose proof (sim10_step fl c s g cl s' rr Hs Hfr He) as Hs'.
-    rewrite (c10_legal_model fl c s g cl s' rr (proj1 Hs) Hfr He), c10_live_ok.
-    rewrite (c10_obs_model fl c full s' _ sh Hs' Hsh). cbn [andb]. apply IH; assumption.
-  - cbn [c10_legal ghost_step]. rewrite (c10_live_fail fl c s g cl Hs He).
-    rewrite (c10_obs_model fl c full s g sh Hs Hsh). cbn [andb]. apply IH; assumption.
+    cbn [mon_from fst snd].
+  - rewrite (scope_model fl c s g cl s' rr (proj1 Hs) He) in *.
+    destruct (fresh_ok fl c s cl) eqn:Hfr; [|reflexivity].
+    apply andb_true_iff in Hwf. destruct Hwf as [Hwf Hwr]. apply andb_true_iff in Hwf. destruct Hwf as [Hsh Hen].
+    pose proof (sim10_step fl c s g cl s' rr Hs Hfr He) as Hs'.
+    assert (Hsc : mint_scope fl g cl (Ok rr) = InScope) by (rewrite (scope_model fl c s g cl s' rr (proj1 Hs) He), Hfr; reflexivity).
+    pose proof (range_step fl g cl (Ok rr) Hr Hsc) as Hr'.
+    cbn [c10_step_ok]. rewrite (c10_legal_model fl c s g cl s' rr (proj1 Hs) He), c10_live_ok, Hsh.
+    rewrite (c10_obs_model fl c full s' _ sh Hs'); [cbn [andb]; apply IH; assumption | | exact Hen].
+    intros ->. destruct (shape_full fl _ cl _ _ Hr' Hsh) as [A B].
+    unfold model_obs in A, B; cbn [o_owner] in A, B; rewrite map_fst_keyed in A, B. split; assumption.
+  - cbn [mint_scope] in *. cbn [ghost_step] in Hwf.
+    apply andb_true_iff in Hwf. destruct Hwf as [Hwf Hwr]. apply andb_true_iff in Hwf. destruct Hwf as [Hsh Hen].
+    cbn [c10_step_ok ghost_step].
+    assert (Hleg : c10_legal g cl Fail = true).
+    { destruct cl; try reflexivity. cbn in He. discriminate. }
+    rewrite Hleg, (c10_live_fail fl c s g cl Hs He), Hsh.
+    rewrite (c10_obs_model fl c full s g sh Hs); [cbn [andb]; apply IH; assumption | | exact Hen].
+    intros ->. destruct (shape_full fl _ cl _ _ Hr Hsh) as [A B].
+    unfold model_obs in A, B; cbn [o_owner] in A, B; rewrite map_fst_keyed in A, B. split; assumption.
 Qed.
 
 (* ---------- the bit-level replay of the model's own consecutive traces has an empty diff ---------- *)
@@ -259,34 +339,52 @@ Proof.
   apply N.ltb_lt in H1, H2. apply N.eqb_eq in H3. auto.
 Qed.
 
+(* the dump queries list the right bucket indexes (hypothesis on the query shapes, consecutive flavour) *)
+Fixpoint dshapes_ok (b : bcfg) (c : cfg) (sb : bstate) (l : list (call * obs)) (shapes : list bdump) : bool :=
+  match l with
+  | [] => true
+  | (cl, _) :: r =>
+      let sb' := fst (step_b b c sb cl) in
+      dump_shape_ok b sb' shapes && dshapes_ok b c sb' r (tl shapes)
+  end.
+Lemma dump_model_keys bs d : map fst (dump_model bs d) = map fst d.
+Proof. unfold dump_model. rewrite map_map. apply map_ext. intros [k v]. reflexivity. Qed.
+
 Lemma diffb_model b c l : bcfg_ok b c -> forall (s : state) (bs : buckets) shapes i, Good b (s, bs) ->
+  dshapes_ok b c (s, bs) l shapes = true ->
   diffb_from b c (s, bs) (model_steps FCons c s l) (model_dumps b c (s, bs) l shapes) i = 0.
 Proof.
-  intros Hok. induction l as [|[cl sh] r IH]; intros s bs shapes i Hg; cbn [model_steps diffb_from model_dumps]; [reflexivity|].
+  intros Hok. induction l as [|[cl sh] r IH]; intros s bs shapes i Hg Hd; cbn [model_steps diffb_from model_dumps]; [reflexivity|].
+  cbn [dshapes_ok] in Hd. apply andb_true_iff in Hd. destruct Hd as [Hd1 Hd2].
   destruct (step_sim' b c s bs cl Hok Hg) as (bs'&E&Hg').
-  destruct (step FCons c s cl) as [s' o'] eqn:Es. cbn [fst snd] in E, Hg'. cbn [diffb_from]. rewrite E. cbn [fst snd tl].
+  destruct (step FCons c s cl) as [s' o'] eqn:Es. cbn [fst snd] in E, Hg'. cbn [diffb_from]. rewrite E in *. cbn [fst snd tl] in *.
   rewrite out_eqb_refl. cbn [andb].
   assert (Ho : forallb (fun p : N * option addr => oaddr_eqb (snd p) (cons_owner_of_b b (s', bs') (fst p)))
                  (o_owner (model_obs FCons c s' sh)) = true).
   { apply forallb_forall. intros x Hx. unfold model_obs in Hx. cbn [o_owner] in Hx. apply in_map_iff in Hx.
     destruct Hx as (p&<-&_). cbn [fst snd owner_of]. rewrite (owner_of_b_eq b c s' bs' (fst p) Hok Hg'). apply oaddr_eqb_refl'. }
-  rewrite Ho, dump_model_idem, bdump_eqb_refl. cbn [andb]. apply IH. exact Hg'.
+  rewrite Ho, dump_model_idem, bdump_eqb_refl.
+  assert (Hds : dump_shape_ok b (s', bs') (dump_model bs' match shapes with [] => [] | d :: _ => d end :: model_dumps b c (s', bs') r (tl shapes)) = true).
+  { unfold dump_shape_ok in *. cbn [fst] in *. rewrite dump_model_keys. destruct shapes as [|d ds]; [discriminate | exact Hd1]. }
+  rewrite Hds. cbn [andb]. apply IH; assumption.
 Qed.
 
-Lemma diff_bits_model fl c b now0 full l shapes : (fl = FCons -> bcfg_okb b c = true) ->
+Lemma diff_bits_model fl c b now0 full l shapes :
+  (fl = FCons -> bcfg_okb b c = true /\ dshapes_ok b c (init_b now0) l shapes = true) ->
   diff_bits (model_btrace fl c b now0 full l shapes) = 0.
 Proof.
   intros Hb. unfold diff_bits, model_btrace, model_trace. cbn [bt_trace bt_bcfg bt_dumps t_fl t_cfg t_now0 t_steps].
-  destruct fl; try reflexivity. rewrite (Hb eq_refl).
-  apply diffb_model; [apply bcfg_okb_ok; apply Hb; reflexivity | apply good_init].
+  destruct fl; try reflexivity. destruct (Hb eq_refl) as [H1 H2]. rewrite H1.
+  apply diffb_model; [apply bcfg_okb_ok; exact H1 | apply good_init | exact H2].
 Qed.
 
 Theorem c10_check_accepts_model fl c b now0 full l shapes :
-  wf_run fl c full (init now0) l = true -> (fl = FCons -> bcfg_okb b c = true) ->
+  wf_run fl c full (init now0) (ghost0 now0) l = true ->
+  (fl = FCons -> bcfg_okb b c = true /\ dshapes_ok b c (init_b now0) l shapes = true) ->
   check (model_btrace fl c b now0 full l shapes) = (0, 0, 0).
 Proof.
   intros Hwf Hb. unfold check. rewrite (diff_bits_model fl c b now0 full l shapes Hb).
   unfold model_btrace. cbn [bt_trace]. rewrite diff_model_trace. cbn [first_diff N.eqb].
   unfold monitor, model_trace. cbn [t_fl t_cfg t_full t_now0 t_steps].
-  rewrite (mon_model_steps fl c full l _ _ 0 (sim10_init fl now0) Hwf). reflexivity.
+  rewrite (mon_model_steps fl c full l _ _ 0 (sim10_init fl now0) (range_init now0) Hwf). reflexivity.
 Qed.
